@@ -2442,6 +2442,12 @@ impl Db {
 	pub fn verif_digest(&self) -> crate::verif::Digest {
 		self.inner.verif_digest()
 	}
+
+	/// (size tier, filled, written, last_removed, entry size) of every value table of `col` that has ever held an
+	/// entry.
+	pub fn verif_table_stats(&self, col: ColId) -> Vec<(u8, u64, u64, u64, u16)> {
+		self.inner.columns[col as usize].verif_table_stats()
+	}
 }
 
 #[cfg(pdb_verif)]
